@@ -61,10 +61,13 @@ def negative_control(ctx, sd, name, consts, inv):
     return res
 
 
-def gen_consts(acts, w=6, batch=2, snap=3, comp=2, dele=2, crash=3, genlen=12, dev=("F14",)):
+ALL_CRASH = ("idle", "write", "snapshot", "compact", "delete", "restart")
+
+
+def gen_consts(acts, w=6, batch=2, snap=3, comp=2, dele=2, crash=3, genlen=12, dev=("F14",), crash_in=ALL_CRASH):
     return {"Keys": q("a1", "a2", "b1"), "Times": {0, 1, 2}, "MaxWrites": w, "MaxBatch": batch, "MaxSnap": snap,
             "MaxCompact": comp, "MaxDelete": dele, "MaxCrash": crash, "Dev": q(*dev), "GenLen": genlen,
-            "Acts": q(*acts)}
+            "Acts": q(*acts), "CrashIn": q(*crash_in)}
 
 
 def generate(ctx, sd, name, consts, num, variants=3):
